@@ -251,6 +251,19 @@ func runC17(c *fw.Ctx, idx int) {
 		return
 	}
 	cfg := configuration.New()
+	if c.Rng.Intn(2) == 0 {
+		// recursion support: marker ids are generated while iterating; every goroutine marshals values with shared pointers
+		cfg.Iterator.RecursionSupport = true
+		c.Inc("rounds.recursion-support")
+		for k := 0; k < 2; k++ {
+			n := &c20N{V: 1 + k}
+			a, b := &c20N{V: 20 + k}, &c20N{V: 30 + k}
+			n.S = []*c20N{a, b, a, b, a}
+			n.M = map[string]*c20N{"x": b}
+			a.P = b // sharing only, no cycle (results are compared structurally)
+			jobs = append(jobs, c17Job{v: n, tmpl: (*c20N)(nil), cte: c.Rng.Intn(2) == 0})
+		}
+	}
 	isess := iterator.NewSession(nil, cfg)
 	bsess := builder.NewSession(nil, cfg)
 
@@ -309,7 +322,9 @@ func runC17(c *fw.Ctx, idx int) {
 	c.Eval()
 	// sequential reference on fresh instances
 	for k, j := range jobs {
-		want := c17Do(0, j, configuration.New(), nil, nil, -1)
+		wcfg := configuration.New()
+		wcfg.Iterator.RecursionSupport = cfg.Iterator.RecursionSupport
+		want := c17Do(0, j, wcfg, nil, nil, -1)
 		for g := 0; g < G; g++ {
 			c.Inc("calls_compared")
 			if why := c17Same(results[g][k], want, j.cte); why != "" {
